@@ -1138,6 +1138,7 @@ def must_call_census(ctx, crate, files):
                       "%s can now return normally without calling %s, which every path through it called in the reviewed tree: an early exit / fast path was put in front of work this function always did" % (short(b.id), w),
                       where_of(b))
     ctx.floor("functions compared with the must-call table", n, 1)
+    loop_must_call_census(ctx, crate, files)
 
 
 def self_symmetry_sites(crate):
@@ -1170,3 +1171,119 @@ def self_symmetry_sites(crate):
             out.append((b, c))
     crate._cache[key] = out
     return out
+
+
+# ---------------------------------------------------------------------------- per-iteration must-call census
+def loop_must_calls(crate, b):
+    """{loop key: names} — for every iterator-driven loop of b (raw body), the weighty crate-local calls that lie on EVERY path
+    through one iteration (from the Some-edge of next() back to the next() call; paths that leave the loop do not count).
+    The key names the loop by what it iterates (`<source call>#k`), not by position."""
+    out = {}
+    seen = {}
+    for lp in iterator_loops(b):
+        sb_, it, none_e, some_e, cs_ = lp
+        if cs_ is None:
+            continue
+        head = cs_.bb
+        src = None
+        for x in role_walk(it):
+            if isinstance(x, tuple) and x[0] == "call" and x[1] not in PASS_ADAPTORS and x[1] not in ("next", "into_iter", "iter", "iter_mut", "enumerate", "zip", "clone", "cloned", "deref"):
+                src = x[1]
+                break
+        if src is None:
+            continue
+        k = seen.get(src, 0)
+        seen[src] = k + 1
+        body = b.reach(some_e, avoid=set(none_e))
+        names = set()
+        for nm, t in []:
+            pass
+        for c in b.calls:
+            if c.bb not in body or b.blocks[c.bb]["cleanup"] or not c.callee or c.bb == head:
+                continue
+            tgt = crate.bodies.get(c.callee.target)
+            if tgt is not None:
+                if tgt.kind == "Closure" or tgt.auto_derived or not (tgt.file or "").startswith("src/") or not tgt.name:
+                    continue
+                nm = tgt.name
+            else:
+                tr = c.callee.trait or ""
+                mods = crate._cache.get("crate_modules") or set()
+                if not tr or tr.split("::")[0] not in mods:
+                    continue
+                nm = c.callee.name
+            if b.must_pass(some_e, {head}, {c.bb}):
+                names.add((nm, tgt))
+        out["%s#%d" % (src, k)] = names
+    return out
+
+
+def loop_must_call_table(crate):
+    _direct_must_calls(crate, next(iter(crate.fns())))      # initialises crate_modules
+    per = {}
+    for b in crate.fns():
+        if b.kind == "Closure" or b.auto_derived or not (b.file or "").startswith("src/") or not b.name or (b.file or "").endswith("tst.rs") or (b.file or "").endswith("/check.rs"):
+            continue
+        per.setdefault(_mc_key(b), []).append(b)
+    tab = {}
+    for k, bs in per.items():
+        if len(bs) != 1:
+            continue
+        for lk, names in loop_must_calls(crate, bs[0]).items():
+            w = sorted({nm for nm, t in names if t is None or _weighty(t)})
+            if w:
+                tab["%s@%s" % (k, lk)] = w
+    return tab
+
+
+def loop_must_call_census(ctx, crate, files):
+    """LMC: an iteration of a loop still makes, on every path that goes on to the next element, each weighty call it made on every
+    such path in the reviewed tree: no new `continue` in front of the loop's work."""
+    global _MUSTCALL
+    import json as _json, os as _os
+    if _MUSTCALL is None:
+        try:
+            _MUSTCALL = _json.load(open(_os.path.join(_os.path.dirname(_os.path.dirname(_os.path.abspath(__file__))), "mustcall.json")))
+        except Exception:
+            _MUSTCALL = {}
+    ref = _MUSTCALL.get("loops:" + (ctx.cur_cfg or "default")) or _MUSTCALL.get("loops:default") or {}
+    if not ref:
+        raise AnchorMissing("mustcall.json", "no loop table")
+    _direct_must_calls(crate, next(iter(crate.fns())))
+    names_now = {b.name for b in crate.fns() if b.name} | set(getattr(crate, "aliases", {}).values()) | {c.callee.name for b in crate.fns() for c in b.calls if c.callee and c.callee.target not in crate.bodies}
+    by_key, by_name = {}, {}
+    for b in crate.fns():
+        if b.kind == "Closure" or not b.name:
+            continue
+        by_key.setdefault(_mc_key(b), []).append(b)
+        by_name.setdefault(b.name, []).append(b)
+    n = 0
+    cache = {}
+    for k, want in sorted(ref.items()):
+        fk, lk = k.rsplit("@", 1)
+        f, name = fk.rsplit("::", 1)
+        if f not in files:
+            continue
+        bs = by_key.get(fk) or by_name.get(name, [])
+        if len(bs) != 1:
+            continue
+        b = bs[0]
+        if b.id not in cache:
+            cache[b.id] = loop_must_calls(crate, b)
+        cur = cache[b.id]
+        if lk not in cur:
+            continue            # the loop is gone (rewritten as an adaptor chain, moved into a helper): no obligation here
+        n += 1
+        got = {nm for nm, t in cur[lk]}
+        # calls made inside a callee that is itself always called count as well
+        for nm, t in cur[lk]:
+            if t is not None:
+                got |= (must_calls(crate, t, weighty_only=False) or set())
+        for w in want:
+            if w not in names_now or w == name:
+                continue
+            ctx.check(w in got, "skipped-iteration:%s:%s:%s" % (fkey(b), lk, w), "every iteration of the loop over %s in %s still calls %s" % (lk, short(b.id), w),
+                      "an iteration of the loop over %s in %s can now go on to the next element without calling %s, which every iteration did in the reviewed tree: a `continue` / guard was put in front of the loop's work, so some elements are skipped" % (lk, short(b.id), w),
+                      where_of(b))
+    if any(k.rsplit("@", 1)[0].rsplit("::", 1)[0] in files for k in ref):
+        ctx.floor("loops compared with the per-iteration must-call table", n, 1)
